@@ -324,6 +324,7 @@ class QueryScheduler:
         '_next_run',
         '_clock_resolution_millis',
         '_question_type',
+        '_earliest_next_run',
     )
 
     def __init__(
@@ -351,6 +352,7 @@ class QueryScheduler:
         self._next_run: Optional[asyncio.TimerHandle] = None
         self._clock_resolution_millis = time.get_clock_info('monotonic').resolution * 1000
         self._question_type = question_type
+        self._earliest_next_run = 0.0
 
     def start(self, loop: asyncio.AbstractEventLoop) -> None:
         """Start the scheduler.
@@ -388,6 +390,17 @@ class QueryScheduler:
         """Schedule a query for a pointer."""
         self._next_scheduled_for_alias[scheduled_query.alias] = scheduled_query
         heappush(self._query_heap, scheduled_query)
+        self._rearm_if_earlier(scheduled_query.when_millis)
+
+    def _rearm_if_earlier(self, when_millis: float_) -> None:
+        """Re-arm the timer if a query is due before the armed wake-up."""
+        next_run = self._next_run
+        if next_run is None or self._loop is None or self._startup_queries_sent < STARTUP_QUERIES:
+            return
+        when = max(millis_to_seconds(when_millis), self._earliest_next_run)
+        if when < next_run.when():
+            next_run.cancel()
+            self._next_run = self._loop.call_at(when, self._process_ready_types)
 
     def cancel_ptr_refresh(self, pointer: DNSPointer) -> None:
         """Cancel a query for a pointer."""
@@ -448,10 +461,8 @@ class QueryScheduler:
         # switch to a strategy of sending queries only when we
         # need to refresh records that are about to expire
         if self._startup_queries_sent >= STARTUP_QUERIES:
-            self._next_run = self._loop.call_at(
-                millis_to_seconds(now_millis + self._min_time_between_queries_millis),
-                self._process_ready_types,
-            )
+            self._earliest_next_run = millis_to_seconds(now_millis + self._min_time_between_queries_millis)
+            self._next_run = self._loop.call_at(self._earliest_next_run, self._process_ready_types)
             return
 
         self._next_run = self._loop.call_later(self._startup_queries_sent**2, self._process_startup_queries)
@@ -494,13 +505,25 @@ class QueryScheduler:
             # the query, the query will get cancelled.
             schedule_rescue.append(query)
 
+        self._next_run = None
         for query in schedule_rescue:
             self.schedule_rescue_query(query, now_millis, RESCUE_RECORD_RETRY_TTL_PERCENTAGE)
+
+        # Rescue queries may be due before the entry that stopped the loop above
+        next_scheduled = None
+        while self._query_heap:
+            query = self._query_heap[0]
+            if query.cancelled:
+                heappop(self._query_heap)
+                continue
+            next_scheduled = query
+            break
 
         if ready_types:
             self.async_send_ready_queries(False, now_millis, ready_types)
 
         next_time_millis = now_millis + self._min_time_between_queries_millis
+        self._earliest_next_run = millis_to_seconds(next_time_millis)
 
         if next_scheduled is not None and next_scheduled.when_millis > next_time_millis:
             next_when_millis = next_scheduled.when_millis
